@@ -3,6 +3,7 @@ package rules
 import (
 	"fmt"
 	"go/ast"
+	"pigeonverif/internal/load"
 	"sort"
 	"strings"
 
@@ -72,6 +73,8 @@ func C08(c *Ctx) {
 	r.Rule("C08-c", "parseRuleWrap: leader routine iff rule.leader (within left-recursive or memoised dispatch); parseRuleMemoize only when !rule.leftRecursive; each path evaluates the rule exactly once; parseRuleRecursiveNoLeader is parseRule")
 	r.Rule("C08-d", "the growth loop breaks unless ok && (depth == 0 || endMark.offset > lastResult.end.offset); lastResult/lastErrors are updated and the position reset to the start mark only on the continuing path")
 
+	r.Rule("C08-e", "every left-recursive group gets a leader: ComputeLeftRecursives sets Leader on the rule findLeader returns for an SCC with more than one rule and on the rule itself for a self-loop - in the same branches that set LeftRecursive - otherwise the runtime evaluates the cycle plainly and recurses without end")
+	c08Leaders(c)
 	abs := c.allAbs()
 	n := 0
 	for _, a := range abs {
@@ -243,4 +246,56 @@ func c08d(c *Ctx, a *absVariant) {
 	} else {
 		r.Ok("C08-d", "T.parseRuleRecursiveLeader:strict-growth", v.Name, v.Where(loop.Pos()), "continues only on success with strictly larger end offset (offsets are bounded by len(data))")
 	}
+}
+
+// c08Leaders (C08-e).
+func c08Leaders(c *Ctx) {
+	r := c.R
+	g := c.G()
+	if g == nil {
+		return
+	}
+	cl := load.FuncDecl(g.Pkg("builder"), "", "ComputeLeftRecursives")
+	if cl == nil || cl.Body == nil {
+		r.Fatal("anchor builder.ComputeLeftRecursives not found")
+		return
+	}
+	var marks []string
+	leaderDef := ""
+	ast.Inspect(cl.Body, func(n ast.Node) bool {
+		as, ok := n.(*ast.AssignStmt)
+		if !ok {
+			return true
+		}
+		l := nospace(as.Lhs[0])
+		if strings.HasSuffix(l, ".Leader") || strings.HasSuffix(l, ".LeftRecursive") {
+			marks = append(marks, l+"="+nospace(as.Rhs[0])+" under ["+strings.Join(guardsOf(cl.Body, as.Pos()), ";")+"]")
+		}
+		if l == "leader" && len(as.Rhs) == 1 {
+			leaderDef = nospace(as.Rhs[0])
+		}
+		return true
+	})
+	sort.Strings(marks)
+	joined := strings.Join(marks, " | ")
+	var bad []string
+	for _, want := range []string{
+		"rules[leader].Leader=true under [len(scc)>1]",
+		"rules[name].Leader=true under [!(len(scc)>1);ok]",
+		"rules[name].LeftRecursive=true under [len(scc)>1]",
+		"rules[name].LeftRecursive=true under [!(len(scc)>1);ok]",
+	} {
+		if !strings.Contains(joined, want) {
+			bad = append(bad, "missing `"+want+"`")
+		}
+	}
+	for _, m := range marks {
+		if strings.Contains(m, "=false") {
+			bad = append(bad, "a flag is cleared: "+m)
+		}
+	}
+	if leaderDef != "findLeader(graph,scc)" {
+		bad = append(bad, "the leader of a group is "+leaderDef+", not findLeader(graph, scc)")
+	}
+	r.Check(len(bad) == 0, "C08-e", "G.builder.ComputeLeftRecursives:every-group-gets-a-leader", "", g.Where(cl.Pos()), "Leader set next to LeftRecursive in both branches; leader := findLeader(graph, scc)", strings.Join(bad, "; ")+" (marks: "+joined+")")
 }
